@@ -153,8 +153,13 @@ func existingRoundsDiff(before, after map[string][]byte, except ...string) []str
 // error event, one message with the error request.
 func SignerErrorResult(op *types.Operation, pid int, ev string, text string) []byte {
 	res := *op
-	req := requests.DKGProposalConfirmationErrorRequest{Error: requests.NewFSMError(errors.New(text)), ParticipantId: pid, CreatedAt: op.CreatedAt}
-	data, _ := json.Marshal(req)
+	// written out by hand (the harness does not use the product's request type): the
+	// machine names the batch it could not sign
+	m := map[string]interface{}{"ParticipantId": pid, "Error": requests.NewFSMError(errors.New(text)), "CreatedAt": op.CreatedAt}
+	if bid := BatchOfOp(op); bid != "" {
+		m["BatchID"] = bid
+	}
+	data, _ := json.Marshal(m)
 	res.Event = fsm.Event(ev)
 	res.ResultMsgs = []storage.Message{{Event: ev, Data: data, DkgRoundID: op.DKGIdentifier, RecipientAddr: op.To}}
 	b, _ := json.Marshal(res)
